@@ -459,6 +459,70 @@ def run_resume(case):
     return L1, L2, cap2
 
 
+def advertised_limit(st, peer, v):
+    """largest plaintext the endpoint with settings `st` announced it accepts (RFC 8449): the extension is in
+    effect only when both ends set record_size_limit; TLS 1.3 counts the content type octet"""
+    if not (st.record_size_limit and peer.record_size_limit):
+        return 2 ** 14
+    return min(2 ** 14, st.record_size_limit - 1 if tuple(v) >= (3, 4) else st.record_size_limit)
+
+
+def limit_findings(cs, ss, oc, os_, v, prefix):
+    """both endpoints' effective receive limit against what each advertised, and against the peer's send limit"""
+    bad = []
+    for who, st, o, pst, po in (("client", cs, oc, ss, os_), ("server", ss, os_, cs, oc)):
+        adv = advertised_limit(st, pst, v)
+        if o["recv_limit"] != adv:
+            bad.append((prefix + "%s-recv-limit-not-advertised" % who,
+                        "%s accepts records up to %d but advertised %d" % (who, o["recv_limit"], adv)))
+        if o["send_limit"] > advertised_limit(pst, st, v):
+            bad.append((prefix + "record-limit", "%s sends up to %d, the peer advertised %d"
+                        % (who, o["send_limit"], advertised_limit(pst, st, v))))
+        if o["send_limit"] > po["recv_limit"]:
+            bad.append((prefix + "record-limit", "%s sends up to %d, the peer accepts %d" % (who, o["send_limit"], po["recv_limit"])))
+    return bad
+
+
+def probe_limit(L, receiver, limit, prefix):
+    """behavioural: a record of exactly `limit` plaintext bytes from the keyed peer is delivered, one of limit+1
+    bytes is refused with record_overflow.  Uses up the connection."""
+    from tlslite import errors
+    from tlslite.messages import ApplicationData
+    from .. import lab
+    if limit >= 2 ** 14:
+        return []
+    sender = "server" if receiver == "client" else "client"
+    sconn = L.end(sender).conn
+    saved = sconn._send_record_limit
+    sconn._send_record_limit = 2 ** 14          # a peer that ignores what we advertised
+    bad = []
+    try:
+        for n, expect_ok in ((limit, True), (limit + 1, False)):
+            # one record, not the 1/n-1 split writeAsync applies to CBC suites below TLS 1.1
+            msg = ApplicationData().create(bytearray((i * 7 + 1) & 0xff for i in range(n)))
+            w = L.op(sender, sconn._sendMsg(msg, randomizeFirstBlock=False), pump_other=False)
+            if w[0] != "ok":
+                return bad
+            r = L.read(receiver, max=n, min=n)
+            if expect_ok:
+                if not (r[0] == "ok" and r[1] is not None and len(r[1]) == n):
+                    bad.append((prefix + "%s-refuses-record-of-advertised-size" % receiver,
+                                "%s advertised %d but a record of %d bytes gave %s" % (receiver, limit, n,
+                                 r[0] if r[0] != "error" else lab.exc_class(r[1]))))
+                    return bad
+            else:
+                over = r[0] == "error" and isinstance(r[1], errors.TLSLocalAlert) and \
+                    alert_name(r[1].description) == "record_overflow"
+                if not over:
+                    bad.append((prefix + "%s-accepts-record-above-advertised-limit" % receiver,
+                                "%s advertised %d but a record of %d plaintext bytes from the keyed peer was %s"
+                                % (receiver, limit, n, "delivered" if r[0] == "ok" else
+                                   (r[0] if r[0] != "error" else lab.exc_class(r[1])))))
+    finally:
+        sconn._send_record_limit = saved
+    return bad
+
+
 def oracle_resumed(ctx, case, L, cap):
     """after the second handshake completed on both ends: equal views, parameters inside the CURRENT settings"""
     from .. import lab
@@ -490,11 +554,8 @@ def oracle_resumed(ctx, case, L, cap):
                 ea, eb = "exception", type(e).__name__
             if ea != eb:
                 bad.append(("c03:resumption:exporter-differs", "keyingMaterialExporter differs after resumption"))
-    if not (oc["send_limit"] <= os_["recv_limit"]):
-        bad.append(("c03:resumption:record-limit", "client sends up to %d, server accepts %d" % (oc["send_limit"], os_["recv_limit"])))
-    if not (os_["send_limit"] <= oc["recv_limit"]):
-        bad.append(("c03:resumption:record-limit", "server sends up to %d, client accepts %d" % (os_["send_limit"], oc["recv_limit"])))
     v, suite = oc["version"], oc["cipherSuite"]
+    bad.extend(limit_findings(cs, ss, oc, os_, v, "c03:resumption:"))
     # the flags of a connection and of its own session object must tell the same story
     for who, o in (("client", oc), ("server", os_)):
         if tuple(v) < (3, 4) and bool(o["etm"]) != bool(o["session_etm"]):
@@ -544,31 +605,37 @@ def evaluate_resume(ctx, case, pending=None):
         ctx.count("resumption[%s]:first handshake failed" % mode)
         return
     c, s = L2.client, L2.server
+    c_exc, s_exc, c_state = c.exc, s.exc, c.state        # (the limit probe below uses the connection up)
     key = ("resume", mode, enc_settings(vs[0]), enc_settings(vs[1]), enc_settings(vs[2]), enc_settings(vs[3]),
            case["scred"], case.get("ccred"), case.get("reqCert"))
     ctx.case(key=key, nontrivial=True, sample=None)
     completed = c.state == "done" and s.state == "done"
     if completed:
         ctx.count("resumption[%s]:second handshake %s" % (mode, "resumed" if L2.client.conn.resumed else "full"))
-        for k, what in oracle_resumed(ctx, case, L2, cap2):
-            ctx.violation(k, what + "  [%s resumption]" % mode, dict(jsonable_case(case), stage="resumption", key=k))
+        found = oracle_resumed(ctx, case, L2, cap2)
+        rcv = case.get("probe") or ("client", "server")[ctx.evaluations % 2]
+        st_r, st_p = (vs[2], vs[3]) if rcv == "client" else (vs[3], vs[2])
+        found += probe_limit(L2, rcv, advertised_limit(st_r, st_p, L2.client.conn.version), "c03:resumption:")
+        for k, what in found:
+            ctx.violation(k, what + "  [%s resumption]" % mode, dict(jsonable_case(case), stage="resumption", key=k, probe=rcv))
     else:
-        ctx.count("resumption[%s]:second handshake failed (%s / %s)" % (mode, lab.exc_class(c.exc), lab.exc_class(s.exc)))
+        ctx.count("resumption[%s]:second handshake failed (%s / %s)" % (mode, lab.exc_class(c_exc), lab.exc_class(s_exc)))
     # a declined or unusable session must fall back to a full handshake: whenever the two CURRENT policies
     # negotiate (model), the second connection completes.  Not judged: the client's own argument check
     # (ValueError: its new settings no longer offer the session's suite).
-    client_arg_error = c.state == "error" and isinstance(c.exc, ValueError)
+    client_arg_error = c_state == "error" and isinstance(c_exc, ValueError)
     # repaired by /repo f043dd9: a TLS <= 1.2 server with ticketKeys sends the NewSessionTicket in one unprotected
     # record before its ChangeCipherSpec; a client that already enforced its own record_size_limit on it ended in
     # record_overflow whenever the limit was below the ticket size although the two policies are compatible
     rsl2 = case["resume"]["cs2"].get("record_size_limit")
-    if mode != "id" and rsl2 and rsl2 < 1024 and lab.exc_class(c.exc) == "local_alert:22":
+    if mode != "id" and rsl2 and rsl2 < 1024 and lab.exc_class(c_exc) == "local_alert:22":
         k = "c03:tls12-ticket-vs-record-size-limit"
         ctx.violation(k, "client record_overflow on the unprotected NewSessionTicket of a TLS<=1.2 server with "
                          "ticketKeys (client record_size_limit %d) although the policies negotiate  [%s resumption]"
                       % (rsl2, mode), dict(jsonable_case(case), stage="resumption", key=k))
     if pending is not None and not client_arg_error:
-        c2 = dict(case, cs=case["resume"]["cs2"], ss=case["resume"]["ss2"])
+        c2 = dict(case, cs=case["resume"]["cs2"], ss=case["resume"]["ss2"],
+                      calpn=case["resume"].get("calpn2", case["calpn"]), salpn=case["resume"].get("salpn2", case["salpn"]))
         pending.append(("resumption-fallback", case, completed, enc_case(c2, vs[2], vs[3])))
 
 
@@ -626,12 +693,25 @@ def gen_resume_case(ctx, idx):
         if all(validated(d)[0] is not None for d in (cs, ss, cs2, ss2)):
             break
     req = rng.random() < 0.25
+    res = {"mode": mode, "cs2": cs2, "ss2": ss2}
+    calpn = salpn = None
+    if rng.random() < 0.4:
+        protos = [b"h2", b"http/1.1", b"spdy/3"]
+        salpn = subset(rng, protos, keep=rng.randint(1, 3))
+        calpn = rng.choice([None, [b"h2"], [b"http/1.1", b"h2"], [b"spdy/3", b"http/1.1"]])
+        q = rng.random()
+        if q < 0.3:
+            res["calpn2"] = None
+        elif q < 0.7:
+            res["calpn2"] = rng.choice([[b"h2"], [b"http/1.1"], [b"spdy/3", b"h2"]])
+        if rng.random() < 0.2:
+            res["salpn2"] = rng.choice([None, [b"http/1.1"]])
     return {"fault": None, "cs": cs, "ss": ss, "cflavour": "cert", "sflavour": "cert",
             "scred": rng.choice(["rsa", "rsa", "ecdsa", "dsa"] if mode != "tls13" else ["rsa", "ecdsa", "ed25519"]),
             "ccred": rng.choice(["client_rsa", "client_ecdsa"]) if req else None, "reqCert": req,
-            "calpn": None, "salpn": None, "sni": rng.choice([None, "example.com"]), "ssni": None,
+            "calpn": calpn, "salpn": salpn, "sni": rng.choice([None, "example.com"]), "ssni": None,
             "srp_bits": 0, "srp_user_known": True, "seed": ctx.seed, "index": idx,
-            "resume": {"mode": mode, "cs2": cs2, "ss2": ss2}}
+            "resume": res}
 
 
 def directed_resume_cases(ctx):
@@ -655,10 +735,24 @@ def directed_resume_cases(ctx):
         out.append(mk(mode, cs={"cipherNames": ["aes128gcm", "aes256gcm"]}, ss2={"cipherNames": ["aes256gcm"]}))
         out.append(mk(mode, ss2={"macNames": ["sha", "aead"], "cipherNames": ["aes128gcm", "aes128"]}))
         # record size limits on the abbreviated handshake
-        for a, b in ((None, None), (1000, 2000), (2 ** 14, 512), (64, 64)):
-            out.append(mk(mode, cs={"record_size_limit": 4096}, ss={"record_size_limit": 8192},
-                          cs2={"record_size_limit": a} if a else {}, ss2={"record_size_limit": b} if b else {}))
+        for a, b in ((None, None), (1000, 2000), (2 ** 14, 512), (512, 2 ** 14), (64, 64)):
+            for side in ("client", "server"):
+                c_ = mk(mode, cs={"record_size_limit": 4096}, ss={"record_size_limit": 8192},
+                        cs2={"record_size_limit": a} if a else {}, ss2={"record_size_limit": b} if b else {})
+                c_["probe"] = side
+                out.append(c_)
         out.append(mk(mode, ss={"record_size_limit": 700}))
+        # ALPN on the second connection: offered again, not offered any more, changed, newly offered
+        for a1, a2 in (([b"h2"], [b"h2"]), ([b"h2"], None), ([b"h2", b"http/1.1"], [b"http/1.1"]), (None, [b"h2"])):
+            c_ = mk(mode)
+            c_["calpn"] = a1
+            c_["salpn"] = [b"h2", b"http/1.1"]
+            c_["resume"]["calpn2"] = a2
+            out.append(c_)
+        c_ = mk(mode)
+        c_["calpn"], c_["salpn"] = [b"h2"], [b"h2"]
+        c_["resume"]["calpn2"], c_["resume"]["salpn2"] = [b"h2"], None
+        out.append(c_)
         # the version the session was made for is no longer the one negotiated
         out.append(mk(mode, ss2={"maxVersion": (3, 2)}))
         out.append(mk(mode, ss2={"maxVersion": (3, 3), "minVersion": (3, 3)}))
@@ -825,10 +919,9 @@ def oracle(ctx, case, L, cap):
                 flag("c03:exporter-differs", "keyingMaterialExporter(%r, %d): client %s server %s"
                      % (label, n, short(ea), short(eb)))
     # session-level vs connection-level flags of one endpoint
-    if not (oc["send_limit"] <= os_["recv_limit"]):
-        flag("c03:record-limit", "client sends up to %d, server accepts %d" % (oc["send_limit"], os_["recv_limit"]))
-    if not (os_["send_limit"] <= oc["recv_limit"]):
-        flag("c03:record-limit", "server sends up to %d, client accepts %d" % (os_["send_limit"], oc["recv_limit"]))
+    if oc["version"] is not None:
+        for k_, w_ in limit_findings(cs, ss, oc, os_, oc["version"], "c03:"):
+            flag(k_, w_)
     # the key-exchange metadata attributes: compared only where both endpoints claim a value
     for f in ("ecdhCurve", "dhGroupSize", "serverSigAlg"):
         a, b = oc.get(f), os_.get(f)
@@ -917,11 +1010,6 @@ def oracle(ctx, case, L, cap):
         flag("c03:ems-outside-policy", "EMS in use, client %s server %s" % (cs.useExtendedMasterSecret, ss.useExtendedMasterSecret))
     if tuple(v) < (3, 4) and not oc["ems"] and (cs.requireExtendedMasterSecret or ss.requireExtendedMasterSecret):
         flag("c03:ems-required-not-used", "EMS required by one side but not in use")
-    for st, who, o in ((cs, "client", oc), (ss, "server", os_)):
-        lim = st.record_size_limit
-        # the extension takes effect only when both sides enable it
-        if cs.record_size_limit and ss.record_size_limit and o["recv_limit"] > lim:
-            flag("c03:%s-recv-limit-above-setting" % who, "%s accepts records of %d, record_size_limit %d" % (who, o["recv_limit"], lim))
     return bad
 
 
@@ -1066,6 +1154,11 @@ def jsonable_case(case):
     for k in ("calpn", "salpn"):
         if c[k] is not None:
             c[k] = [bytes(a).hex() for a in c[k]]
+    if c.get("resume"):
+        c["resume"] = dict(c["resume"])
+        for k in ("calpn2", "salpn2"):
+            if c["resume"].get(k) is not None:
+                c["resume"][k] = [bytes(a).hex() for a in c["resume"][k]]
     return c
 
 
@@ -1074,6 +1167,11 @@ def case_from_json(c):
     for k in ("calpn", "salpn"):
         if c.get(k) is not None:
             c[k] = [bytes.fromhex(a) for a in c[k]]
+    if c.get("resume"):
+        c["resume"] = dict(c["resume"])
+        for k in ("calpn2", "salpn2"):
+            if c["resume"].get(k) is not None:
+                c["resume"][k] = [bytes.fromhex(a) for a in c["resume"][k]]
     for s in ("cs", "ss"):
         c[s] = dict(c[s])
         c[s]["minVersion"] = tuple(c[s]["minVersion"])
@@ -1228,7 +1326,13 @@ def evaluate(ctx, case, pending):
     if out[0] == "ok":
         ctx.count("version:3.%d" % out[1]["v"])
         ctx.count("suite:0x%04x" % out[1]["suite"])
-        for key, what in oracle(ctx, case, L, cap):
+        found = oracle(ctx, case, L, cap)
+        views_before_probe = impl_views(L)
+        if not case.get("fault"):
+            rcv = case.get("probe") or ("client", "server")[ctx.evaluations % 2]
+            st_r, st_p = (cs, ss) if rcv == "client" else (ss, cs)
+            found += probe_limit(L, rcv, advertised_limit(st_r, st_p, L.client.conn.version), "c03:")
+        for key, what in found:
             if case.get("fault"):
                 # with a faulty server only what the *client* accepted is judged: parameters outside the
                 # client's offer / policy, and views that differ although both ends completed
@@ -1237,7 +1341,7 @@ def evaluate(ctx, case, pending):
                 key = "c03:faulty-server:" + key[4:]
                 what = "server made to ignore the offer (%s): %s" % (case["fault"], what)
             ctx.violation(key, what + "  [cflavour=%s sflavour=%s scred=%s]" % (case["cflavour"], case["sflavour"], case["scred"]),
-                          dict(jsonable_case(case), stage="oracle", key=key))
+                          dict(jsonable_case(case), stage="oracle", key=key, probe=case.get("probe") or ("client", "server")[ctx.evaluations % 2]))
     elif out[0] == "abort" and not case.get("fault"):
         # "otherwise the handshake fails with an alert": an exception escaped and no alert was sent
         e = L.end(out[1]).exc
@@ -1269,7 +1373,7 @@ def evaluate(ctx, case, pending):
     pending.append(("compatible", case, ("live", out[0] == "ok", c19_expectation(case, cs, ss)),
                     enc_case(case, cs, ss, "compat")))
     if out[0] == "ok":
-        pending.append(("views", case, impl_views(L), enc_case(case, cs, ss, "views")))
+        pending.append(("views", case, views_before_probe, enc_case(case, cs, ss, "views")))
 
 
 _C19 = {}
@@ -1413,13 +1517,21 @@ def replay(ctx, rep):
             lc = ctx.lean()
             if lc is None or isinstance(L2.client.exc, ValueError):
                 return False
-            c2 = dict(case, cs=case["resume"]["cs2"], ss=case["resume"]["ss2"])
+            c2 = dict(case, cs=case["resume"]["cs2"], ss=case["resume"]["ss2"],
+                      calpn=case["resume"].get("calpn2", case["calpn"]), salpn=case["resume"].get("salpn2", case["salpn"]))
             m = lc.ask(enc_case(c2, validated(c2["cs"])[0], validated(c2["ss"])[0]))
             print("model for the current policies:", m)
             # a session that cannot be resumed must fall back to a full handshake
             return m.startswith("ok ")
         still = False
-        for k, what in oracle_resumed(ctx, case, L2, cap2):
+        found = oracle_resumed(ctx, case, L2, cap2)
+        r_ = case["resume"]
+        for rcv in ([case["probe"]] if case.get("probe") else []):
+            st_r, st_p = validated(r_["cs2"])[0], validated(r_["ss2"])[0]
+            if rcv == "server":
+                st_r, st_p = st_p, st_r
+            found += probe_limit(L2, rcv, advertised_limit(st_r, st_p, L2.client.conn.version), "c03:resumption:")
+        for k, what in found:
             print("  oracle:", k, "-", what)
             if inp.get("key") in (None, k):
                 still = True
@@ -1428,8 +1540,15 @@ def replay(ctx, rep):
     out = impl_outcome(L, cap, case)
     print("implementation:", fmt_outcome(out))
     still = False
+    iv = impl_views(L) if out[0] == "ok" else None
     if out[0] == "ok":
-        for key, what in oracle(ctx, case, L, cap):
+        found = oracle(ctx, case, L, cap)
+        if case.get("probe") and not case.get("fault"):
+            st_r, st_p = validated(case["cs"])[0], validated(case["ss"])[0]
+            if case["probe"] == "server":
+                st_r, st_p = st_p, st_r
+            found += probe_limit(L, case["probe"], advertised_limit(st_r, st_p, L.client.conn.version), "c03:")
+        for key, what in found:
             if case.get("fault"):
                 key = "c03:faulty-server:" + key[4:]
             print("  oracle:", key, "-", what)
@@ -1448,7 +1567,7 @@ def replay(ctx, rep):
         if out[0] == "ok":
             mv = lc.ask(enc_case(case, cs, ss, "views"))
             print("model views:   ", mv)
-            print("impl views:    ", impl_views(L))
-            if inp.get("stage") != "oracle" and mv != impl_views(L):
+            print("impl views:    ", iv)
+            if inp.get("stage") != "oracle" and mv != iv:
                 still = True
     return still
